@@ -66,7 +66,7 @@ Definition fn_ok (p : string * stm) : bool :=
 
 (* for the report: functions that fail the test, what is objected to, and one offending trace each *)
 Definition ev_name (e : ev) : string :=
-  (match fst e with KLock => "Lock " | KRLock => "RLock " | KUnlock => "Unlock " | KRUnlock => "RUnlock " | KSend => "send " | KRecv => "receive " end)
+  (match fst e with KLock => "Lock " | KRLock => "RLock " | KUnlock => "Unlock " | KRUnlock => "RUnlock " | KSend => "send " | KRecv => "receive " | KCall => "call " end)
   ++ obj_name (snd e) lk_objects.
 Definition lk_report : list (string * list (string * list string)) :=
   map (fun p => (fst p, map (fun w => (viol_sig (fst w), map ev_name (snd w)))
